@@ -23,6 +23,12 @@ Tie, re-established on the current /repo tree on every run:
      scipy's fft / ifft are wrapped: on EVERY vector they transform the laws assumed by the theorems are
      checked (dense DFT, round trip to 1e-13 relative, conjugate symmetry of the transform of a real line,
      real inverse of a conjugate-symmetric line).
+     Modes 'axi' (theta-independent perturbation: empty modes after a non-empty one on the same solver object), 'reuse'
+     (perturbed state, then the equilibrium, on the same objects) and 'poison' (the shared work arrays _coeffs and the
+     interpolant coefficients filled with NaN before the solve; the potential must be bitwise that of the plain run)
+     exercise c15_solve_sequence_is_independent_solves / c15_solve_history_free: the sequence of solves through the shared
+     buffer is the list of independent solves.  The side conditions of that theorem on the per-mode slices are the
+     tables compared exactly in (d) (c15_solve_slices_admissible).
  A sample of the model's tables is re-evaluated inside Coq (vm_compute).
 """
 import json
@@ -144,7 +150,7 @@ def pipe_case(c):
         R = gi // (npts[1] * npts[2] * npts[3])
         V = gi % npts[3]
         out = {}
-        if mode in ('pipe', 'reuse'):
+        if mode in ('pipe', 'reuse', 'poison'):
             f.getAllData()[:] = S.density._fEq[R, V] * (1.0 + simdriver.exact_field(gi, seed) / 8.0)
         elif mode == 'axi':
             # a perturbation that does not depend on theta: every poloidal mode m != 0 of the density is (exactly, for a
@@ -161,6 +167,14 @@ def pipe_case(c):
             f.getAllData()[:] = S.density._fEq[R, V]
         S.density.getPerturbedRho(f, S.rho)
         out['prho'] = simdriver.block_info(S.rho)
+        if mode == 'poison':
+            # the shared work arrays hold garbage before the solve (c15_solve_history_free: any initial buffer content;
+            # the interpolant's coefficient array is overwritten by compute_interpolant): the result must not change by a bit
+            S.QN._coeffs[:] = complex(np.nan, np.nan)
+            S.QN._spline.coeffs[:] = complex(np.nan, np.nan)
+            S.QN._real_spline.coeffs[:] = np.nan
+            S.QN._realMem[:] = np.nan
+            S.QN._imagMem[:] = np.nan
         S.solve_qn()
         out['phi'] = simdriver.block_info(S.phi)
         out['modes'] = simdriver.block_info(S.rho)
@@ -369,8 +383,10 @@ def run():
             if g in ((1, 1), (2, 2), (2, 1)) or not quick:
                 pcases.append(('axi', npts, g, 'chi0' if npts[1] % 2 == 0 else 'chi1', chk.seed % 997))
                 pcases.append(('reuse', npts, g, 'chi0', chk.seed % 997))
+                pcases.append(('poison', npts, g, 'chi0', chk.seed % 997))
     pres = implrun.run_cases('props.c15', 'pipe_case', pcases, tmo=900.0, chunk=1)
     serial = {}
+    pipe_phi = {}
     worst = {'resolve': 0.0, 'imag': 0.0, 'dense': 0.0, 'round': 0.0, 'herm': 0.0, 'ireal': 0.0, 'drift': 0.0, 'phi_after': 0.0}
     nvec = 0
     qn_mt = {}
@@ -441,7 +457,7 @@ def run():
         if not (prho.imag == 0).all():
             chk.violation(SITE + '.DensityFinder:imag', 'perturbed density has an imaginary part', {'kind': 'impl', 'case': case_l})
         pmax = float(np.abs(phi).max())
-        if mode in ('pipe', 'axi', 'reuse'):
+        if mode in ('pipe', 'axi', 'reuse', 'poison'):
             # independent per-mode re-solve
             ref, condC, condA = resolve_reference(prho.real.astype(complex), sol, mt, el)
             err = float(np.abs(phi - ref).max())
@@ -460,6 +476,12 @@ def run():
             worst['imag'] = max(worst['imag'], im / ib if ib > 0 else 0.0)
             if not im <= ib:
                 chk.violation(key + ':potential-not-real', '%r: max |imag phi| = %.3g for a real density (bound %.3g, max|phi| %.3g)' % (c, im, ib, pmax), {'kind': 'impl', 'case': case_l})
+            # the shared work buffers held garbage: not a bit may change (c15_solve_history_free)
+            if mode == 'pipe':
+                pipe_phi[(tuple(npts), g, el)] = phi.tobytes()
+            elif mode == 'poison' and pipe_phi.get((tuple(npts), g, el)) != phi.tobytes():
+                chk.violation(key + ':result-depends-on-work-buffer-content', '%r: with the work arrays (_coeffs, interpolant coefficients) filled with NaN before the solve the potential differs from the plain run'
+                              % (c,), {'kind': 'impl', 'case': case_l})
             # bitwise between process grids
             sk = (mode, tuple(npts), el)
             if g == (1, 1):
@@ -509,7 +531,10 @@ def run():
                              'fft_conj_symmetry_worst_eps_units': round(worst['herm'], 2), 'ifft_real_output_worst_eps_units': round(worst['ireal'], 2),
                              'equilibrium_drift_after_one_strang_step': worst['drift'], 'max_abs_phi_after_equilibrium_step': worst['phi_after'],
                              'reciprocal_inexact_cases': n_recip, 'resolve_bound': 'RESOLVE_K=%g * eps * (cond(A_m) cond(C) + nTheta) * max|phi|' % RESOLVE_K},
-                      uncovered=['laws of scipy fft/ifft and of the spline-interpolation + sparse-solve chain of _solveMode: hypotheses (checked on every transformed vector and by the dense re-solve)',
+                      uncovered=['that scipy fft/ifft is the mathematical DFT: the laws are PROVED for the DFT over a field with a primitive root of unity (c15_dft_laws) and remain hypotheses of the '
+                                 'any-transform form of the theorems; scipy is checked against the dense DFT and the laws on every transformed vector',
+                                 'laws of the spline-interpolation + sparse-solve chain of _solveMode (qn_solve_laws: hypotheses; checked by the dense re-solve); that compute_interpolant overwrites '
+                                 'the whole interpolant coefficient array (assumption of c15_solve_sequence_is_independent_solves; exercised by the poison / axi / reuse runs)',
                                  'f_eq is left unchanged by the advection operators under zero potential (C10, C11, C12): hypotheses of c15_equilibrium_fixed_point; only measured here',
                                  'layout changes are identities on the global field (C01 / C03)',
                                  'binary64: n*(1/n) != 1 for n = 49, 98, 103, ... makes fftfreq(n, 1/n) inexact (reported as a finding, not modelled)'])
@@ -519,7 +544,7 @@ def replay(path):
     core.setup_paths()
     body = json.load(open(path))
     c = body['replay'].get('case')
-    if isinstance(c, list) and len(c) == 5 and c[0] in ('pipe', 'zero'):
+    if isinstance(c, list) and len(c) == 5 and c[0] in ('pipe', 'zero', 'axi', 'reuse', 'poison'):
         mode, npts, g, el, seed = c
         r = pipe_case((mode, npts, tuple(g), el, seed))
         if r[0] != 'ok':
@@ -529,7 +554,7 @@ def replay(path):
         mt = model_tables(o['solver']['nb'], npts[1], (0,), ())
         probs, _ = compare_tables(None, 'QN', o['solver'], mt, npts[1], (0,), (), c)
         print('bookkeeping problems:', probs)
-        if mode in ('pipe', 'axi', 'reuse'):
+        if mode in ('pipe', 'axi', 'reuse', 'poison'):
             ref, condC, condA = resolve_reference(o['prho'].real.astype(complex), o['solver'], mt, el)
             err = float(np.abs(o['phi'] - ref).max())
             bound = RESOLVE_K * EPS * (condA * condC + npts[1]) * float(np.abs(ref).max())
